@@ -171,9 +171,9 @@ func c11Case(o *Out, root *ggql.Root, rec *c04Rec, rng *Rng) {
 		o.Count("printed-form-changed")
 	}
 	o.Emit(Case{
-		Term: N("c11", c04InputsTerm(), LS(g.vdt), LS(decl), LS(given), LS(callTerms), g.hints.term()),
-		Obs:  N("obs", LS(rs), B(before == after)),
-		Meta: map[string]interface{}{"doc": doc, "calls": fmt.Sprintf("%v", callVars), "printed_before": before, "printed_after": after},
+		Term:       N("c11", c04InputsTerm(), LS(g.vdt), LS(decl), LS(given), LS(callTerms), g.hints.term()),
+		Obs:        N("obs", LS(rs), B(before == after)),
+		Meta:       map[string]interface{}{"doc": doc, "calls": fmt.Sprintf("%v", callVars), "printed_before": before, "printed_after": after},
 		Nontrivial: len(names) > 0,
 	})
 }
@@ -196,6 +196,7 @@ func init() {
 		for i := 0; i < n; i++ {
 			c11Case(o, root, rec, rng.Fork())
 		}
+		c11Args(o)
 		c11Mutators(o) // (while ggql.Sort is on: the printed form of an object literal is compared)
 		ggql.Sort = false
 		// whole requests parsed once and resolved several times over changing data and variables
@@ -358,9 +359,176 @@ func c11MutatorsOn(o *Out, strategy string) {
 		}
 		o.Count("mutating-resolver documents")
 		o.Emit(Case{
-			Term: N("c11m", S(strategy+" "+doc)),
-			Obs:  N("obs", LS(same), B(exe.String() == before)),
-			Meta: map[string]interface{}{"doc": doc, "strategy": strategy, "resolves": detail},
+			Term:       N("c11m", S(strategy+" "+doc)),
+			Obs:        N("obs", LS(same), B(exe.String() == before)),
+			Meta:       map[string]interface{}{"doc": doc, "strategy": strategy, "resolves": detail},
+			Nontrivial: true,
+		})
+	}
+}
+
+// ---- arguments out of order, undeclared, under lists and unions; a subscription request resolved twice ----
+//
+// The fields of a parsed request are shared by every object they are resolved on and by every resolve of the
+// request.  Whatever is worked out about a field's arguments at the first use (their order, which of them are
+// declared, the container type) and kept on the field shows as a second resolve that answers differently or as
+// a changed printed form.  Deterministic table, every run; the expected observation is the property itself.
+
+type c11AQ struct{}
+
+func (q *c11AQ) Resolve(f *ggql.Field, args map[string]interface{}) (interface{}, error) {
+	switch f.Name {
+	case "query":
+		return q, nil
+	case "hello":
+		return fmt.Sprintf("hi %v", canon(args)), nil
+	case "items":
+		return []interface{}{&c11AItem{"a"}, &c11AOther{"b"}, &c11AItem{"c"}}, nil
+	}
+	return nil, nil
+}
+
+type c11AItem struct{ id string }
+
+func (i *c11AItem) Resolve(f *ggql.Field, args map[string]interface{}) (interface{}, error) {
+	switch f.Name {
+	case "id":
+		return i.id, nil
+	case "plain", "size":
+		return fmt.Sprintf("item %s %v", f.Name, canon(args)), nil
+	}
+	return nil, nil
+}
+
+type c11AOther struct{ id string }
+
+func (i *c11AOther) Resolve(f *ggql.Field, args map[string]interface{}) (interface{}, error) {
+	switch f.Name {
+	case "id":
+		return i.id, nil
+	case "size":
+		return fmt.Sprintf("other size %v", canon(args)), nil
+	}
+	return nil, nil
+}
+
+const c11ASDL = `type Query { hello(a: Int, b: Int = 3, l: [Int]): String items: [Thing] }
+union Thing = Item | Other
+type Item { id: String plain(x: Int): String size(unit: String!): String }
+type Other { id: String size: String }`
+
+type c11ARQ struct{ Size int32 }
+
+func (q *c11ARQ) Greet(name string, loud bool) string { return fmt.Sprint(name, loud) }
+func (q *c11ARQ) Sum(a, b int32) int32                { return a + b }
+
+type c11ARSchema struct{ Query *c11ARQ }
+
+const c11ARSDL = `type Query { size(unit: String): Int greet(name: String!, loud: Boolean!): String sum(a: Int!, b: Int!): Int }`
+
+func c11ARoot(strategy string) *ggql.Root {
+	var root *ggql.Root
+	if strategy == "reflect" {
+		root = ggql.NewRoot(&c11ARSchema{Query: &c11ARQ{Size: 3}})
+		if err := root.ParseString(c11ARSDL); err != nil {
+			panic(err)
+		}
+		return root
+	}
+	root = ggql.NewRoot(&c11AQ{})
+	if err := root.ParseString(c11ASDL); err != nil {
+		panic(err)
+	}
+	if err := root.RegisterType(&c11AItem{}, "Item"); err != nil {
+		panic(err)
+	}
+	if err := root.RegisterType(&c11AOther{}, "Other"); err != nil {
+		panic(err)
+	}
+	return root
+}
+
+var c11ADocs = []struct{ strategy, doc string }{
+	{"iface", `{ hello(b: 1, a: 2) }`},
+	{"iface", `{ hello(l: [1], b: 1, a: 2) }`},
+	{"iface", `{ hello(bogus: 1) }`},
+	{"iface", `{ hello(a: 1, bogus: 1) }`},
+	{"iface", `{ items { ... on Item { id plain(bogus: 1) } } }`},
+	{"iface", `{ items { ... on Item { id plain(x: 1) } } }`},
+	{"iface", `{ items { ... on Item { size(unit: "x") } ... on Other { size(unit: "x") } } }`},
+	{"iface", `{ items { ... on Other { size(unit: "x") } ... on Item { size(unit: "x") } } }`},
+	{"iface", `query A { hello(bogus: 1) } query B { hello(b: 2, a: 1) }`},
+	{"reflect", `{ greet(loud: true, name: "x") }`},
+	{"reflect", `{ sum(b: 1, a: 2) }`},
+	{"reflect", `{ greet(name: "x", bogus: 1, loud: false) }`},
+	{"reflect", `{ size(bogus: 1) }`},
+	{"reflect", `{ size(unit: "cm") }`},
+}
+
+func c11Args(o *Out) {
+	for _, e := range c11ADocs {
+		ops := []string{""}
+		if strings.Contains(e.doc, "query A") {
+			ops = []string{"A", "B", "A"}
+		}
+		root := c11ARoot(e.strategy)
+		exe, err := root.ParseExecutableString(e.doc)
+		if err != nil {
+			panic("c11 argument doc: " + err.Error())
+		}
+		before := exe.String()
+		var same []T
+		var detail []string
+		for i := 0; i < 3; i++ {
+			op := ops[i%len(ops)]
+			fresh := canon(safeResolve(c11ARoot(e.strategy), e.doc, op, nil))
+			reused := canon(safeResolveExe(root, exe, op, nil))
+			same = append(same, B(reused == fresh))
+			detail = append(detail, fmt.Sprintf("resolve %d: reused %s fresh %s", i+1, reused, fresh))
+		}
+		o.Count("argument-order / undeclared-argument documents")
+		o.Emit(Case{
+			Term:       N("c11a", S(e.strategy+" "+e.doc)),
+			Obs:        N("obs", LS(same), B(exe.String() == before)),
+			Meta:       map[string]interface{}{"doc": e.doc, "strategy": e.strategy, "resolves": detail, "printed_before": before, "printed_after": exe.String()},
+			Nontrivial: true,
+		})
+	}
+	// one parsed subscription request, subscribed with twice: both subscribers get what a subscriber of a
+	// freshly parsed request gets, for every event
+	for _, sel := range []string{"{ v w }", "{ w n { v } }", "{ v(x: 5) }"} {
+		doc := "subscription S { listen " + sel + " }"
+		deliver := func(reuse bool) (string, bool) {
+			w := &c19World{msgs: map[int][]interface{}{}, fail: map[int]bool{}}
+			root := ggql.NewRoot(&c19Root{w: w})
+			if err := root.ParseString(c19Schema); err != nil {
+				panic(err)
+			}
+			exe, err := root.ParseExecutableString(doc)
+			if err != nil {
+				panic("c11 subscription doc: " + err.Error())
+			}
+			before := exe.String()
+			for i := 0; i < 2; i++ {
+				if reuse {
+					safeResolveExe(root, exe, "", nil)
+				} else {
+					safeResolve(root, doc, "", nil)
+				}
+				func() {
+					defer func() { _ = recover() }()
+					_, _ = root.AddEvent("t", &c19Event{base: 10 * (i + 1), word: "e", depth: 2})
+				}()
+			}
+			return canon(map[string]interface{}{"0": w.msgs[0], "1": w.msgs[1]}), exe.String() == before
+		}
+		fresh, _ := deliver(false)
+		reused, printed := deliver(true)
+		o.Count("subscription request resolved twice")
+		o.Emit(Case{
+			Term:       N("c11a", S("subscribe twice "+doc)),
+			Obs:        N("obs", LS([]T{B(reused == fresh)}), B(printed)),
+			Meta:       map[string]interface{}{"doc": doc, "reused": reused, "fresh": fresh},
 			Nontrivial: true,
 		})
 	}
